@@ -121,6 +121,9 @@ package http1
 //@   assert @C18 before writeResponse: rejecting || runningChecked
 //@   ghostset after writeResponse: phase = 3
 //@   assert @C01 before ResetWithoutConn: phase == 3 && !rejecting
+// (C19: the error-response path works on the live context - recycling it there also recycles the trace info and
+// with it the start and stage events of the exchange whose finish is still to be recorded)
+//@   assert @C19 before ResetWithoutConn: !rejecting
 //@   ghostset after ResetWithoutConn: phase = 0
 //@   ghostset after ResetWithoutConn#0: closeSet = false
 //@   ghostset after ResetWithoutConn: runningChecked = false
